@@ -54,7 +54,9 @@ def _flags(rng: random.Random) -> dict[str, Any]:
 
 def gen_recipe(rng: random.Random) -> dict[str, Any]:
     r = rng.random()
-    rg = recipes.gen_rg(rng, max_vars=5)
+    # six variables (2x3 / 3x2 grids): inner regions with several partitionings, i.e. sum layers
+    # of arity > 1 *and* more than one input unit - with <= 4 variables only the root mixes
+    rg = recipes.gen_rg(rng, max_vars=6 if rng.random() < 0.4 else 5)
     if r < 0.55:
         rec = recipes.gen_rg_circuit(rng, monotonic=True, normalized=True, rg=rg,
                                      kinds=["categorical", "categorical", "binomial"],
@@ -75,7 +77,9 @@ def gen_recipe(rng: random.Random) -> dict[str, Any]:
         # the number of unit combinations enumerated is ni ** num_vars
         rec["ni"] = min(rec["ni"], 3)
         recipes.fix_units(rec)
-    rec["nc"] = 1
+    # sampling reads output [0, 0]; with two classes the root sum has more than one output
+    # unit as well (the distribution checked is that of the first output)
+    rec["nc"] = 1 if rng.random() < 0.6 else 2
     return rec
 
 
